@@ -568,6 +568,120 @@ def real_direction(c):
     return ["ret", fval(f(c["x1"], c["x2"], c["y1"], c["y2"]))]
 
 
+# `_area_connectivity`: the cases are built for the two passes (many provisional labels that merge late, stale
+# captured labels in the merge loop), the clamped windows (1xN, Nx1, borders), the closeness test (values that are
+# close but not equal, asymmetric pairs, +-inf) and the NaN guards; the array handed to the numba function carries a
+# memory layout (`lay`): the generated program sees the logical raster.
+AREA_LAYOUTS = ["C", "C", "F", "T", "strided", "neg", "negrow"]
+# close but not equal: 1 ~ 1.000001 ~ 1.00001 (1.00002 is not); 100000 ~ 100001; 99999 is close to the centre 100000
+# but 100000 is not close to the centre 99999; 0 ~ 1e-9; an infinite centre matches every finite neighbour
+AREA_CLOSE = [1.0, 1.000001, 1.00001, 1.00002, 1.0 + 2.0 ** -20, 100000.0, 100001.0, 99999.0, 0.0, 1e-9, -1e-9,
+              INF, -INF, 2.0]
+
+
+def area_lay(a, layout):
+    a = np.ascontiguousarray(a)
+    h, w = a.shape
+    if layout == "F":
+        return np.asfortranarray(a)
+    if layout == "T":
+        return np.ascontiguousarray(a.T).T
+    if layout == "strided":
+        big = np.full((2 * h + 1, 3 * w + 2), 99.0, dtype=a.dtype)
+        v = big[1::2, 2::3][:h, :w]
+        v[...] = a
+        return v
+    if layout == "neg":
+        return np.ascontiguousarray(a[::-1, ::-1])[::-1, ::-1]
+    if layout == "negrow":
+        return np.ascontiguousarray(a[::-1, :])[::-1, :]
+    return a
+
+
+def area_shape(rng, h, w):
+    """0/1 shapes whose first-pass labels merge late"""
+    kind = rng.choice(["comb_down", "comb_up", "u", "s", "checker", "stripes_d", "rings", "snake", "trident", "teeth"])
+    a = np.zeros((h, w), dtype=np.float64)
+    if kind == "comb_down":
+        a[:, ::2] = 1
+        a[h - 1, :] = 1
+    elif kind == "comb_up":
+        a[:, ::2] = 1
+        a[0, :] = 1
+    elif kind == "u":
+        a[:, 0] = 1
+        a[:, w - 1] = 1
+        a[h - 1, :] = 1
+    elif kind == "s":
+        a[::2, :] = 1
+        for k in range(1, h, 2):
+            a[k, (w - 1) if (k // 2) % 2 == 0 else 0] = 1
+    elif kind == "checker":
+        a = (np.add.outer(np.arange(h), np.arange(w)) % 2).astype(np.float64)
+    elif kind == "stripes_d":
+        a = (np.add.outer(np.arange(h), np.arange(w)) % 3 == 0).astype(np.float64)
+    elif kind == "rings":
+        for k in range(0, (min(h, w) + 1) // 2):
+            a[k:h - k, k:w - k] = k % 2
+    elif kind == "snake":
+        for k in range(min(h, w)):
+            a[h - 1 - k, k] = 1
+            if k + 1 < w:
+                a[h - 1 - k, k + 1] = 1
+    elif kind == "trident":            # diagonal arms meeting in one cell: [high, low, other] captured in pass 2
+        a[:] = 9
+        y, x = h - 1 - rng.randrange(0, max(1, h // 3)), w // 2
+        for t in range(0, h):
+            for (yy, xx) in ((y - t, x - t), (y - t, x + t)):
+                if 0 <= yy < h and 0 <= xx < w and rng.random() < 0.9:
+                    a[yy, xx] = 0
+        a[:, 0] = 0
+        a[h - 1, 0:x] = 0
+    else:                              # teeth of random length hanging from isolated cells, joined at the bottom
+        a[h - 1, :] = 1
+        for xx in range(0, w, 2):
+            a[rng.randrange(0, h):, xx] = 1
+    if rng.random() < 0.5:
+        a = a[:, ::-1].copy()
+    if rng.random() < 0.4:
+        a = a[::-1, :].copy()
+    return kind, a
+
+
+def area_nan(rng, a):
+    """NaN placement: frame, corners, a row / column, a diagonal, scattered, everything, everything but one"""
+    h, w = a.shape
+    kind = rng.choice(["frame", "corners", "row", "col", "diag", "scatter", "scatter", "all", "all_but_one", "first"])
+    if kind == "frame":
+        a[0, :] = a[h - 1, :] = NAN
+        a[:, 0] = a[:, w - 1] = NAN
+    elif kind == "corners":
+        for (y, x) in ((0, 0), (0, w - 1), (h - 1, 0), (h - 1, w - 1)):
+            a[y, x] = NAN
+    elif kind == "row":
+        a[rng.randrange(h), :] = NAN
+    elif kind == "col":
+        a[:, rng.randrange(w)] = NAN
+    elif kind == "diag":
+        for k in range(min(h, w)):
+            a[k, k] = NAN
+    elif kind == "scatter":
+        p = rng.choice([0.1, 0.3, 0.6])
+        for y in range(h):
+            for x in range(w):
+                if rng.random() < p:
+                    a[y, x] = NAN
+    elif kind == "all":
+        a[:] = NAN
+    elif kind == "all_but_one":
+        v = a[h // 2, w // 2]
+        a[:] = NAN
+        a[rng.randrange(h), rng.randrange(w)] = 1.0 if v != v else v
+    else:
+        a[0, 0] = NAN
+    return kind
+
+
 def gen_mean(rng):
     data = grid(rng, [0.0, 1.0, 2.0, 3.0, -1.0, 0.5, NAN, NAN, INF], 5, 5)
     ex = rng.choice([[NAN], [NAN], [], [0.0], [NAN, 1.0], [INF], [2.0, 3.0]])
@@ -607,11 +721,41 @@ def real_apply(fname):
 
 
 def gen_area(rng):
-    kind = rng.random()
-    vals = [0.0, 1.0, 1.0, 2.0] if kind < 0.5 else [1.0, 2.0] if kind < 0.8 else [0.0, 1.0, 2.0, 3.0, 1.00000001, 1.5]
-    pool = vals + ([NAN] if rng.random() < 0.5 else [])
-    data = grid(rng, pool, 5, 6)
-    return dict(data=data.tolist(), n=rng.choice([4, 8]))
+    mode = rng.choice(["rand", "rand", "shape", "shape", "many", "close", "close", "line", "nan"])
+    h, w = rng.randint(1, 7), rng.randint(1, 8)
+    tag = mode
+    if mode == "line":
+        (h, w) = (1, rng.randint(1, 14)) if rng.random() < 0.5 else (rng.randint(1, 14), 1)
+        a = np.array(pick_vals(rng, [0.0, 1.0, 1.0, 2.0, 1.000001], h * w), dtype=np.float64).reshape(h, w)
+    elif mode == "shape":
+        h, w = max(h, 2), max(w, 2)
+        kind, a = area_shape(rng, h, w)
+        tag = "shape:" + kind
+        if rng.random() < 0.3:
+            a = a * 2 - 1
+    elif mode == "many":               # many provisional labels: alternating rows / isolated cells with bridges
+        h, w = rng.randint(4, 9), rng.randint(6, 12)
+        a = np.zeros((h, w), dtype=np.float64)
+        if rng.random() < 0.5:
+            a[::2, ::2] = 1
+            for _ in range(rng.randint(0, 6)):
+                a[rng.randrange(h), rng.randrange(w)] = 1
+        else:
+            a[:, ::2] = 1
+            for _ in range(rng.randint(1, 5)):
+                a[rng.randrange(h), :] = rng.choice([0.0, 1.0])
+        if rng.random() < 0.5:
+            a[h - 1, :] = 1
+    elif mode == "close":
+        pool = rng.sample(AREA_CLOSE, rng.randint(2, 5))
+        a = np.array(pick_vals(rng, pool, h * w), dtype=np.float64).reshape(h, w)
+    else:
+        kind = rng.random()
+        vals = [0.0, 1.0, 1.0, 2.0] if kind < 0.5 else [1.0, 2.0] if kind < 0.8 else [0.0, 1.0, 2.0, 3.0, 1.00000001, 1.5]
+        a = np.array(pick_vals(rng, vals, h * w), dtype=np.float64).reshape(h, w)
+    if mode == "nan" or rng.random() < 0.3:
+        tag += "+nan:" + area_nan(rng, a)
+    return dict(data=a.tolist(), n=rng.choice([4, 8]), lay=rng.choice(AREA_LAYOUTS), tag=tag)
 
 
 def line_area(c):
@@ -620,7 +764,7 @@ def line_area(c):
 
 def real_area(c):
     f = mod("xrspatial.zonal")._area_connectivity
-    d = np.array(c["data"], dtype=np.float64)
+    d = area_lay(np.array(c["data"], dtype=np.float64), c.get("lay", "C"))
     out = f(d, c["n"])
     return ["ret", farr(out), farr(d)]
 
